@@ -56,7 +56,29 @@ def path_case(draw, defaults=False):
           "restore_best_weights": draw(st.booleans()),
           "early_stopping_factor": draw(st.sampled_from([0.99, 0.5, 1.0])),
           "max_patience": draw(st.sampled_from([2, 1, 10]))}
-    return {"spec": s, "path": pa}
+    # one path in five meets a GEMINI whose score turns NaN after so many validation evaluations of the penalised phase
+    nan_after = draw(st.one_of(st.none(), st.none(), st.none(), st.none(), st.integers(1, 14)))
+    return {"spec": s, "path": pa, "nan_after": nan_after}
+
+
+def poison(est, limit):
+    """From the `limit`-th score-only evaluation made while a penalty is in force, the objective of `est` reports NaN (what
+    an overflowing kernel or a user-written GEMINI does); gradients and affinities are untouched."""
+    g = est.get_gemini()
+    base = type(g)
+    state = {"n": 0}
+
+    class Poisoned(base):
+        def __call__(self, y_pred, affinity, return_grad=False):
+            out = base.__call__(self, y_pred, affinity, return_grad)
+            if return_grad or est.alpha == 0:
+                return out
+            state["n"] += 1
+            return float("nan") if state["n"] >= limit else out
+
+    g.__class__ = Poisoned
+    est.get_gemini = lambda: g
+    return state
 
 
 def run_path(est, X, y, pa, s, label):
@@ -96,6 +118,9 @@ def oracle_path(case):
     X = E.build_data(s)
     est, y = E.build(s, X)
     d = X.shape[1]
+    if case.get("nan_after") and s["alpha"] > 0:
+        poison(est, case["nan_after"])
+        label += f" [score becomes NaN at the {case['nan_after']}-th validation evaluation under a penalty]"
     try:
         res, calls, wrn = run_path(est, X, y, pa, s, label)
     except Violation:
